@@ -5,6 +5,7 @@ import TrustVerif.Drv.Common
 Driver for C10.  Protocol (one case = any number of operations):
   rt <snapshot>                                   encode, then decode the encoded bytes
   dec <hex>                                       decode arbitrary bytes
+  mgr <k> <snapshot>*k                            k calls of RetainManager::save_snapshot, then load
   crash <k,..|-> <stale-hex|none> <none|some <snapshot>> <snapshot>
                                                   save `new` over `old` (temp file possibly left
                                                   behind by an earlier crash): the operation list,
@@ -201,6 +202,28 @@ def doCrash (ks stale : String) (toks : Toks) : String :=
     | _ => "bad-op"
   | _, _, _ => "bad-op"
 
+partial def mgrGo : Nat → Toks → Mgr → List String → Option (Mgr × List String)
+  | 0, toks, m, res => if toks.isEmpty then some (m, res.reverse) else none
+  | i + 1, toks, m, res =>
+    match parseSnapshot toks with
+    | some (s, r) =>
+      let (m', e) := m.save s
+      let t := match e with
+        | .ok _ => "ok"
+        | .error e => "err:" ++ showErr e
+      mgrGo i r m' (t :: res)
+    | none => none
+
+/-- `mgr <k> <snapshot>*k`: k calls of `save_snapshot` on a fresh manager and an empty directory,
+then `load` by the next process. -/
+def doMgr (k : String) (toks : Toks) : String :=
+  match k.toNat? with
+  | some k =>
+    match mgrGo k toks ⟨none, ⟨none, none⟩⟩ [] with
+    | some (m, res) => s!"m res={listOrDash res} load={showLoad (load m.disk)}"
+    | none => "bad-op"
+  | none => "bad-op"
+
 def step (line : String) : Option String :=
   if line.startsWith "#" then none else
   match words line with
@@ -211,6 +234,7 @@ def step (line : String) : Option String :=
   | "rt" :: toks => some (doRt toks)
   | ["dec", h] => some (doDec h)
   | "crash" :: ks :: stale :: toks => some (doCrash ks stale toks)
+  | "mgr" :: k :: toks => some (doMgr k toks)
   | [] => none
   | _ => some "bad-op"
 
